@@ -23,13 +23,23 @@ REQUIRED = {t: [f"codec:{c}._write" for c in _classes] + [f"codec:{c}._build" fo
 
 
 def plan(tier, seed):
-    return plan_codec(tier, seed, ["C02"], shapes=True, extra=[{"kind": "repo-tests"}])
+    n = 300 if tier == "quick" else 6000
+    return plan_codec(tier, seed, ["C02"], shapes=True,
+                      extra=[{"kind": "repo-tests"}, {"kind": "c15", "n": n, "objects": True},
+                             {"kind": "c16", "n": n, "objects": True}, {"kind": "c20", "n": n // 2, "objects": True}])
 
 
 def run_shard(desc, rec):
     if desc["kind"] == "repo-tests":
         from ..drivers import repotests
         return repotests.run_shard(desc, rec)
+    if desc.get("objects"):
+        # edit sequences on live blocks (adds, removals, refused bulk assignments ...): every encode that happens
+        # there is size-checked by the codec monitor
+        from ..drivers import objects
+        from ..monitors import codec as codec_mon
+        codec_mon.install(rec)
+        return objects.run_shard(desc, rec)
     codec.run_shard(desc, rec)
 
 
